@@ -192,6 +192,33 @@ def apply_body_rules(rw, src, f, body_open, body_close, loops, cfg):
                 elif toks[cl + 1].text not in ("=",):
                     rw.replace(q + 1, q + 2, ".vx_at(", "R22-index-read")
                     rw.replace(cl, cl + 1, ")", "R22-index-read")
+    # R31: in a call `g(self, a, b, ..)` of a named callee, the arguments that read `self` are bound to locals first
+    # (same values, same order; Verus' lifetime pass has no two-phase borrows for the implicit reborrow of `self`)
+    for name in f.opts.get("bind_self_args", ()):
+        cnt = 0
+        for q in range(body_open + 1, body_close):
+            if toks[q].kind == "ident" and toks[q].text == name and toks[q + 1].text == "(" and toks[q - 1].text not in (".", "::", "fn"):
+                cl = src.pairs[q + 1]
+                args = split_top(src, q + 2, cl)
+                if not args or src.text[toks[args[0][0]].start:toks[args[0][1] - 1].end].strip() != "self":
+                    continue
+                cnt += 1
+                lets, outs = [], ["self"]
+                for n_, (a_, b_) in enumerate(args[1:], 1):
+                    if b_ <= a_:
+                        continue
+                    txt = src.text[toks[a_].start:toks[b_ - 1].end]
+                    if any(toks[k_].text == "self" for k_ in range(a_, b_)):
+                        if toks[a_].text == "&" and toks[a_ + 1].text == "mut":
+                            inner = src.text[toks[a_ + 2].start:toks[b_ - 1].end]
+                            lets.append(f"let mut vx_g{cnt}_{n_} = {inner};")
+                            outs.append(f"&mut vx_g{cnt}_{n_}")
+                        else:
+                            lets.append(f"let vx_g{cnt}_{n_} = {txt};")
+                            outs.append(f"vx_g{cnt}_{n_}")
+                    else:
+                        outs.append(txt)
+                rw.replace(q, cl + 1, "{ " + " ".join(lets) + f" {name}(" + ", ".join(outs) + ") }", "R31-bind-self-arguments")
     # R22c: `v += e;` on a named shim vector / matrix -> `v.vx_add_assign(e);`  (AddAssign spelled as a call)
     for name in f.opts.get("add_assign", ()):
         for q in range(body_open + 1, body_close):
